@@ -308,16 +308,31 @@ def validateEventPath (ctx : Ctx) (node : Node) (p : Path) : Except Status Unit 
             | none => .error .unsupportedEvent
             | some l => checkEventAccess ctx c e.id e.deviceTypes l.id
 
-/-- one event in the queue: its concrete path and the `FabricIndex` field of its payload
-(`fab = 0`: the payload carries none, the event is not fabric-sensitive) -/
+/-- what `EventReader::matches_fabric` finds at context tag 254 (`FabricIndex`) of an event payload:
+no such field (or the payload is not a structure) — the event is not fabric-sensitive; a field that
+is null or not an 8-bit unsigned integer; or a fabric index -/
+inductive FabField
+  | absent
+  | unreadable
+  | idx (n : Nat)
+deriving DecidableEq, Repr, Inhabited
+
+/-- one event in the queue: its concrete path and the `FabricIndex` field of its payload -/
 structure EventOcc where
   ep : Nat
   cl : Nat
   ev : Nat
-  fab : Nat
+  fab : FabField
   /-- the event number the queue assigned (used only to tell occurrences apart) -/
   num : Nat := 0
 deriving DecidableEq, Repr, Inhabited
+
+/-- **property level**: the fabric a fabric-sensitive occurrence is associated with (`none`: the
+occurrence cannot be attributed to a fabric — it carries no readable `FabricIndex`) -/
+def EventOcc.fabricOf (e : EventOcc) : Option Nat :=
+  match e.fab with
+  | .idx n => some n
+  | _ => none
 
 inductive EvOut
   | status (path : Path) (s : Status)
@@ -330,8 +345,13 @@ def isOkE : Except Status Unit → Bool
   | .ok _ => true
   | .error _ => false
 
-/-- `EventReader::matches_fabric` -/
-def matchesFabric (ctx : Ctx) (e : EventOcc) : Bool := e.fab == 0 || e.fab == ctx.accessor.fabIdx
+/-- `EventReader::matches_fabric`: no `FabricIndex` field → `true`; a field that is null / not a `u8`
+→ `true` ("be conservative and allow"); else equality with the accessor's fabric index -/
+def matchesFabric (ctx : Ctx) (e : EventOcc) : Bool :=
+  match e.fab with
+  | .absent => true
+  | .unreadable => true
+  | .idx n => n == ctx.accessor.fabIdx
 
 /-- `EventReader::matches_path` (event paths in the queue are concrete) -/
 def eventMatchesPath (ctx : Ctx) (node : Node) (p : Path) (e : EventOcc) : Bool :=
@@ -339,19 +359,35 @@ def eventMatchesPath (ctx : Ctx) (node : Node) (p : Path) (e : EventOcc) : Bool 
     ((p.endpoint.isNone || p.endpoint == some e.ep) && (p.cluster.isNone || p.cluster == some e.cl) &&
       (p.leaf.isNone || p.leaf == some e.ev))
 
-/-- the event part of `ReportDataResponder::report_events` (no event-number filters, one chunk):
-first the statuses of the concrete request paths that do not validate — except `UnsupportedEvent`,
-which the code skips (`continue`, see the TODO there) —, then the queued events that pass the
-fabric filter, match a valid requested path and whose own path validates (`matches_access`) -/
-def reportEvents (ctx : Ctx) (node : Node) (fabricFiltered : Bool) (paths : List Path)
-    (queue : List EventOcc) : List EvOut :=
-  (paths.filterMap fun p =>
+/-- the statuses of the concrete request paths that do not validate (absent endpoint / cluster /
+event, access denied) -/
+def eventStatuses (ctx : Ctx) (node : Node) (paths : List Path) : List EvOut :=
+  paths.filterMap fun p =>
     if !isWildcard p then
       match validateEventPath ctx node p with
       | .ok _ => none
-      | .error .unsupportedEvent => none
       | .error s => some (.status p s)
-    else none) ++
+    else none
+
+/-- the event part of `ReportDataResponder::report_events` (no event-number filters, one chunk):
+first the statuses of the concrete request paths that do not validate, then the queued events that
+pass the fabric check (`EventReader::do_process_read`: since the repair `fix: fabric-sensitive events
+of another fabric are withheld also from a request that clears isFabricFiltered` the check does not
+consult the requester-controlled `fabricFiltered` flag, which is kept as a parameter to state exactly
+that), match a valid requested path and whose own path validates (`matches_access`) -/
+def reportEvents (ctx : Ctx) (node : Node) (_fabricFiltered : Bool) (paths : List Path)
+    (queue : List EventOcc) : List EvOut :=
+  eventStatuses ctx node paths ++
+  (queue.filter fun e =>
+    matchesFabric ctx e &&
+    paths.any (fun p => eventMatchesPath ctx node p e) &&
+    isOkE (validateEventPath ctx node e.path)).map .data
+
+/-- `report_events` as it was before that repair: the fabric check was skipped for a request with
+`isFabricFiltered = false` (kept for the counter-example `C06.unfiltered_read_disclosed_before_fix`) -/
+def reportEventsOld (ctx : Ctx) (node : Node) (fabricFiltered : Bool) (paths : List Path)
+    (queue : List EventOcc) : List EvOut :=
+  eventStatuses ctx node paths ++
   (queue.filter fun e =>
     (!fabricFiltered || matchesFabric ctx e) &&
     paths.any (fun p => eventMatchesPath ctx node p e) &&
@@ -366,6 +402,23 @@ def runSwap (ctx : Ctx) (op : Operation) : List Node → St → List Out
     match next ctx op node st with
     | none => []
     | some (o, st') => o :: runSwap ctx op rest st'
+
+/-- drain the iterator while the **access-control state** is rewritten between `next` calls (the
+handler of a WriteRequest item that targets the ACL cluster runs between two calls of `next` and
+replaces the fabric's ACL): call `i` sees `ctxs[i]` — same requester and filter, another ACL -/
+def runCtx (op : Operation) (node : Node) : List Ctx → St → List Out
+  | [], _ => []
+  | ctx :: rest, st =>
+    match next ctx op node st with
+    | none => []
+    | some (o, st') => o :: runCtx op node rest st'
+
+/-- the `(endpoint, cluster, leaf)` of the last item among the answers given so far (`la` if there is
+none): what `last_authorized` holds -/
+def lastItemOf (la : Option (Nat × Nat × Nat)) : List Out → Option (Nat × Nat × Nat)
+  | [] => la
+  | .item ep cl lf _ _ :: rest => lastItemOf (some (ep, cl, lf)) rest
+  | .status _ _ :: rest => lastItemOf la rest
 
 /-- the swap run stopped because the expander was exhausted (not because the schedule ran out) -/
 def swapEnded (ctx : Ctx) (op : Operation) : List Node → St → Bool
@@ -440,11 +493,60 @@ def itemsOf (outs : List Out) : List (Nat × Nat × Nat) :=
     | .item ep cl lf _ _ => some (ep, cl, lf)
     | .status _ _ => none
 
-/-- `InteractionModel::{handle, read, write, invoke}` around a given answer list `answers` (the
-expansion): the timed gate for writes / invokes, request validation, then one handler call per
-item. `tr` = `Some(timeout, elapsed)` if a TimedRequest preceded the action. -/
+/-! ### `im/invoker.rs`: the handlers are called from the loop over the expander's items
+
+The **effects** of a request are the calls the cluster handlers receive. They are a component of
+their own (`Dev.calls`), filled by the transliterated loop below — not derived from the answers. -/
+
+/-- what a cluster handler answers to a call: `none` = `Ok(())`, `some s` = an error other than
+`NoSpace` (`do_process_*` turns it into the item's status) -/
+abbrev Handler := Nat → Nat → Nat → Option Status
+
+/-- the handler of the harness: every call succeeds -/
+def okHandler : Handler := fun _ _ _ => none
+
+/-- the device side of one request: the per-path answers written so far and the log of the calls
+the handlers received so far -/
+structure Dev where
+  resp : List Out := []
+  calls : List (Nat × Nat × Nat) := []
+deriving DecidableEq, Repr
+
+/-- `HandlerInvoker::do_process_read` / `do_process_write` / `do_process_invoke` for one element the
+expander yields:
+* `Ok(item)`: **the handler is called** (`self.read` / `self.write` / `self.invoke`); `Ok` → the data
+  / a `Success` status for the item; `Err(e)` (not `NoSpace`) → `item.status(e)`, a status for the
+  concrete path of the item;
+* `Err(status)`: the status is written, **no handler is called**. -/
+def processItem (hnd : Handler) (d : Dev) : Out → Dev
+  | .item ep cl lf w a =>
+    match hnd ep cl lf with
+    | none => { resp := d.resp ++ [.item ep cl lf w a], calls := d.calls ++ [(ep, cl, lf)] }
+    | some s =>
+      { resp := d.resp ++ [.status { endpoint := some ep, cluster := some cl, leaf := some lf } s],
+        calls := d.calls ++ [(ep, cl, lf)] }
+  | .status p s => { d with resp := d.resp ++ [.status p s] }
+
+/-- the loop `while let Some(item) = expander.next() { invoker.process_…(&item, …) }` of
+`ReportDataResponder::respond` / `WriteResponder::respond` / `InvokeResponder::respond` over what the
+expander yields -/
+def processAll (hnd : Handler) (outs : List Out) : Dev := outs.foldl (processItem hnd) {}
+
+/-- a loop that also hands an element the expander refused to the handler (kept for the
+counter-example `C06.calling_handler_for_denied_item_breaks_effects`) -/
+def processItemBad (hnd : Handler) (d : Dev) : Out → Dev
+  | .status p s =>
+    match p.endpoint, p.cluster, p.leaf with
+    | some ep, some cl, some lf => { resp := d.resp ++ [.status p s], calls := d.calls ++ [(ep, cl, lf)] }
+    | _, _, _ => { d with resp := d.resp ++ [.status p s] }
+  | o => processItem hnd d o
+
+/-- `InteractionModel::{handle, read, write, invoke}` around what the expander yields (`answers`):
+the timed gate for writes / invokes, request validation, then the loop that calls the handlers.
+`tr` = `Some(timeout, elapsed)` if a TimedRequest preceded the action. A request refused at the gate
+or by the validation never reaches the loop. -/
 def imRequest (op : Operation) (flag : Bool) (tr : Option (Nat × Nat)) (paths : List Path)
-    (answers : List Out) : Outcome :=
+    (answers : List Out) (hnd : Handler := okHandler) : Outcome :=
   let gate := if op == .read then TimedGate.proceed
     else timedGate flag (tr.map (·.1)) ((tr.map (·.2)).getD 0)
   match gate with
@@ -453,7 +555,7 @@ def imRequest (op : Operation) (flag : Bool) (tr : Option (Nat × Nat)) (paths :
   | .proceed =>
     if (op == .read && !readValid paths) || (op == .invoke && !invokeValid paths) then
       { top := some "InvalidAction", resp := [], effects := [] }
-    else { top := none, resp := answers, effects := itemsOf answers }
+    else { top := none, resp := (processAll hnd answers).resp, effects := (processAll hnd answers).calls }
 
 /-- one `WriteRequest` message of a chunked Write action (`MoreChunkedMessages` on all but the last) -/
 structure Chunk where
@@ -617,12 +719,23 @@ def expectedEventStatus (ctx : Ctx) (node : Node) (ep cl ev : Nat) : Option Stat
       | none => some .unsupportedEvent
       | some l => if permittedEvent ctx e c l then none else some .unsupportedAccess
 
-/-- an occurrence is disclosed: it exists on the node, is permitted, matches a requested path and —
-when fabric filtering is on — is not a fabric-sensitive event of another fabric -/
-def eventVisible (ctx : Ctx) (node : Node) (fabricFiltered : Bool) (paths : List Path) (o : EventOcc) : Bool :=
+/-- "fabric-sensitive data of other fabrics is not disclosed" (written from the Matter rule, not from
+the code): an occurrence associated with a fabric may be shown to that fabric only — **whatever the
+request's `isFabricFiltered` field says** (that field only selects which entries of fabric-scoped
+*lists* are returned; fabric-sensitive events and fields of another fabric are never returned). An
+occurrence that is not associated with a fabric is not fabric-sensitive. -/
+def fabricAllows (ctx : Ctx) (o : EventOcc) : Bool :=
+  match o.fabricOf with
+  | none => true
+  | some f => f == ctx.accessor.fabIdx
+
+/-- an occurrence is disclosed: it exists on the node, is permitted, matches a requested path and is
+not a fabric-sensitive event of another fabric. The requester-controlled `isFabricFiltered` flag has
+no influence. -/
+def eventVisible (ctx : Ctx) (node : Node) (_fabricFiltered : Bool) (paths : List Path) (o : EventOcc) : Bool :=
   (expectedEventStatus ctx node o.ep o.cl o.ev).isNone &&
   paths.any (fun p => matchesOpt p.endpoint o.ep && matchesOpt p.cluster o.cl && matchesOpt p.leaf o.ev) &&
-  (!fabricFiltered || o.fab == 0 || o.fab == ctx.accessor.fabIdx)
+  fabricAllows ctx o
 
 /-- **The specification for event paths**: a status for every concrete path that is absent or not
 permitted (request order), then every disclosed occurrence once, in queue order -/
